@@ -300,10 +300,11 @@ Finish == /\ pc[0] = "wait" /\ nwait = NP - 1
 
 Step(p) == \/ ClaimAcq(p) \/ ClaimRead(p) \/ ClaimWrite(p) \/ ClaimRel(p) \/ ClaimExh(p)
            \/ AcqA(p) \/ UpdRead(p) \/ UpdWrite(p) \/ RdEnd(p) \/ Slot(p) \/ Nop(p) \/ RelA(p)
+\* (processes p >= NP stay "unborn" forever: no action is enabled for them)
 Progress == \/ Fork \/ Wait \/ Finish
-            \/ \E p \in 0..(NP - 1) : Step(p) \/ ChildExit(p)
+            \/ \E p \in Procs : Step(p) \/ ChildExit(p)
 Fault == \/ ForkFail
-         \/ \E p \in 0..(NP - 1) : Exc(p) \/ Kill(p)
+         \/ \E p \in Procs : Exc(p) \/ Kill(p)
 Next == Progress \/ Fault
 
 Terminal == pc[0] \in {"returned", "raised"}
